@@ -67,6 +67,7 @@ class HookFunction:
         """Call the function as it were a method the provided instance."""
 
         extra_args = self._determine_extra_args()
+        previous_cycle = self.cycle
         self.cycle = True
         try:
             if self.wrapper:
@@ -79,7 +80,7 @@ class HookFunction:
         except StopIteration as e:
             result = e.value
         finally:
-            self.cycle = False
+            self.cycle = previous_cycle
 
         return result
 
